@@ -4,6 +4,10 @@ import (
 	"fmt"
 	"math/rand"
 	"net/url"
+	"os"
+	"os/exec"
+	"path/filepath"
+	"regexp"
 	"runtime/debug"
 	"strings"
 	"time"
@@ -553,6 +557,57 @@ func c09Metadata(r *core.Run, idx int, rng *rand.Rand) {
 	}
 }
 
+// ---------- native fuzzing (thorough) ----------
+
+var fuzzExecsRe = regexp.MustCompile(`execs: (\d+)`)
+var fuzzFailRe = regexp.MustCompile(`Failing input written to (\S+)`)
+
+// c09Fuzz runs one coverage-guided go fuzzing target with an execution-count budget.
+func c09Fuzz(budget int) func(r *core.Run, idx int, rng *rand.Rand) {
+	targets := []string{"FuzzDecoders", "FuzzNewServiceProvider", "FuzzSSOHandler", "FuzzLogoutAndQuery"}
+	return func(r *core.Run, idx int, _ *rand.Rand) {
+		const wl = "native_fuzzing"
+		t := targets[idx]
+		cmd := exec.Command("go", "test", "-tags", "verif", "-run", "^$", "-fuzz", "^"+t+"$", "-fuzztime", fmt.Sprintf("%dx", budget), "./fuzz/")
+		cmd.Dir = filepath.Join(core.Root, "harness")
+		cmd.Env = append(os.Environ(), "GOFLAGS=-mod=mod", "GOPROXY=off")
+		out, err := cmd.CombinedOutput()
+		execs := int64(0)
+		for _, m := range fuzzExecsRe.FindAllStringSubmatch(string(out), -1) {
+			var n int64
+			fmt.Sscan(m[1], &n)
+			if n > execs {
+				execs = n
+			}
+		}
+		r.Count("fuzz_executions", execs)
+		r.Count("fuzz_targets_run", 1)
+		r.EvalBulk(execs, 1)
+		if err == nil {
+			r.Sample("fuzz_target", map[string]any{"target": t, "executions": execs})
+			return
+		}
+		if m := fuzzFailRe.FindStringSubmatch(string(out)); m != nil || strings.Contains(string(out), "panic:") || strings.Contains(string(out), "--- FAIL") {
+			crasher := ""
+			if m != nil {
+				b, _ := os.ReadFile(filepath.Join(core.Root, "harness", "fuzz", m[1]))
+				crasher = string(b)
+			}
+			r.Violate(core.Violation{Clause: "fuzz_crash", Class: t, Reason: "coverage-guided fuzzing found a crashing input: " + firstLine(tailOf(string(out), 1500)), Workload: wl, Index: idx,
+				Case: map[string]any{"target": t, "crasher": clipS(crasher, 4000)}, Observed: tailOf(string(out), 3000)})
+			return
+		}
+		r.Inconclusive(fmt.Sprintf("go test -fuzz %s could not run: %v: %s", t, err, tailOf(string(out), 400)))
+	}
+}
+
+func tailOf(s string, n int) string {
+	if len(s) > n {
+		return s[len(s)-n:]
+	}
+	return s
+}
+
 func init() {
 	register(&Prop{
 		ID: "C09", Level: "exploration", DeathIsViolation: true,
@@ -575,6 +630,8 @@ func init() {
 			if c.Thorough {
 				wls = append(wls, core.Workload{Name: "edit_pairs", N: n * 16, Fn: c09Edits(true)})
 				r.Require("edit_pairs", 100000)
+				wls = append(wls, core.Workload{Name: "native_fuzzing", N: 4, Workers: 1, Fn: c09Fuzz(400000)})
+				r.Require("fuzz_executions", 1000000)
 			}
 			return wls
 		},
